@@ -46,6 +46,40 @@ def judge(trace, tag, stats, source):
     return 0
 
 
+def scripted_histories():
+    S, T = "a-rather-long-identifier-name", "AnotherVeryLongClassNameForTests"
+    H1, H2 = {"t": "id", "i": 1}, {"t": "id", "i": 2}
+    out = []
+    for route in ("AllocString", "AllocStatic"):
+        for premark in (False, True):
+            for again in (None, "AllocStatic", "AllocString"):
+                for module in (None, "AllocModuleRef", "AllocModuleRefStr"):
+                    for pending in (False, True):
+                        for passes in (1, 2, 3):
+                            for unit in ("whole", "one"):
+                                ops = [{"op": route, "s": S}, {"op": "AllocString", "s": T}]
+                                if premark:
+                                    ops.append({"op": "Mark", "h": H1})
+                                if again:
+                                    ops.append({"op": again, "s": S})
+                                if module == "AllocModuleRef":
+                                    ops.append({"op": "AllocModuleRef", "parts": [H1]})
+                                elif module == "AllocModuleRefStr":
+                                    ops.append({"op": "AllocModuleRefStr", "ss": [S]})
+                                if pending:
+                                    ops += [{"op": "AddUnmarked", "m": 1}, {"op": "PopUnmarked"}]
+                                for k in range(passes):
+                                    if unit == "whole":
+                                        ops.append({"op": "Sweep", "w": 1000000})
+                                    else:
+                                        ops += [{"op": "Sweep", "w": 1}] * 3
+                                    if k == 0:
+                                        ops.append({"op": "Mark", "h": H2})      # the bystander is re-marked once
+                                ops.append({"op": "AllocString", "s": S})        # asking for the string again
+                                out.append(ops)
+    return out
+
+
 def event_to_op(e):
     op = {"op": e["ev"]}
     for k in ("s", "ss", "parts", "m", "h", "w"):
@@ -112,6 +146,14 @@ def run(tier):
             stats["not_executable"] += info["not_executable"]
             jobs.append((os.path.join(d, f"trace-{tag}.ndjson"), tag, f"TLC-generated behaviours ({tag})"))
     samples.append({"tlc_behaviour": sim_behs[0][:8]})
+    # 2b. a systematic product of short histories around ONE long string: allocation route x marked before or not x
+    #     promoted again or not x made a module part (by handle / by text) or not x a module pending or not x
+    #     one, two or three sweeper passes (whole-table units or unit 1), with a second string as a bystander
+    scripts = scripted_histories()
+    write_ndjson(os.path.join(d, "ops-scripts.ndjson"), scripts)
+    out, _ = vh(["heap-replay", "--ops", os.path.join(d, "ops-scripts.ndjson"), "--out", os.path.join(d, "trace-scripts.ndjson")])
+    stats["not_executable"] += json.loads(out)["not_executable"]
+    jobs.append((os.path.join(d, "trace-scripts.ndjson"), "scripts", "scripted product of short histories"))
     # 3. [TV] seeded random driver on the real heap
     runs, ln = (60, 80) if tier == "quick" else (1200, 120)
     chunk = 60 if tier == "quick" else 100
